@@ -16,14 +16,14 @@ def g(fam, **kw):
     return ['%s:%s:%d' % (fam, name, n) for name, n in kw.items()]
 
 
-V1_QUICK = g('stream', v1good=150, v1corrupt=120, v1struct=120, v1mutate=200, v1trunc=10, v1len=25, v1junk=80, v1cr=60, bytes=40)
-V1_THOROUGH = g('stream', v1good=4000, v1corrupt=4000, v1struct=3000, v1mutate=8000, v1trunc=300, v1len=400, v1junk=2500, v1cr=1500, bytes=1000)
+V1_QUICK = g('stream', v1good=150, v1corrupt=120, v1struct=120, v1mutate=200, v1trunc=10, v1len=25, v1max=30, v1junk=80, v1cr=60, bytes=40)
+V1_THOROUGH = g('stream', v1good=4000, v1corrupt=4000, v1struct=3000, v1mutate=8000, v1trunc=300, v1len=400, v1max=600, v1junk=2500, v1cr=1500, bytes=1000)
 V2_QUICK = g('stream', v2good=120, v2corrupt=150, v2mutate=250, bparse=150, v2ctrl=700, v2len=330, v2sig=60, mixed=80, bytes=40)
 V2_THOROUGH = g('stream', v2good=3000, v2corrupt=4000, v2mutate=8000, bparse=4000, v2ctrl=65536, v2len=2500, v2sig=3060, mixed=2000, bytes=1000)
 IPTEXT_QUICK = g('iptext', iprand=400)
 IPTEXT_THOROUGH = g('iptext', iprand=20000)
-TLV_QUICK = g('tlv', tlvrand=150, tlvtrunc=150, tlvbig=10, tlvmany=6)
-TLV_THOROUGH = g('tlv', tlvrand=6000, tlvtrunc=6000, tlvbig=56, tlvmany=100)
+TLV_QUICK = g('tlv', tlvrand=150, tlvtrunc=150, tlvbig=10, tlvmany=6, tlvprog=60)
+TLV_THOROUGH = g('tlv', tlvrand=6000, tlvtrunc=6000, tlvbig=56, tlvmany=100, tlvprog=3000)
 BUILDER_QUICK = g('builder', bseq=120, bsetlen=120, btotal=10, bpairs=40, bover=18)
 BUILDER_THOROUGH = g('builder', bseq=5000, bsetlen=5000, btotal=200, bpairs=1500, bover=360)
 
@@ -44,7 +44,7 @@ MC_V1_DEEP = model('MC_StreamV1', 'MC_StreamV1_quick.cfg', 'MC_StreamV1_deep.cfg
                    cap=dict(quick=400, thorough=20000), tt=7200)
 MC_V2 = model('MC_StreamV2', 'MC_StreamV2_quick.cfg', 'MC_StreamV2_thorough.cfg', need=['final.v2'],
               cap=dict(quick=300, thorough=4000))
-MC_TLV = model('MC_Tlv', 'MC_Tlv_quick.cfg', 'MC_Tlv_thorough.cfg', need=['kinds'], cap=dict(quick=1500, thorough=30000))
+MC_TLV = model('MC_Tlv', 'MC_Tlv_quick.cfg', 'MC_Tlv_thorough.cfg', need=['kinds'], cap=dict(quick=2500, thorough=40000))
 MC_BUILDER = model('MC_Builder', 'MC_Builder_quick.cfg', 'MC_Builder_thorough.cfg', need=['built'],
                    cap=dict(quick=30000, thorough=60000), tt=7200)
 MC_WRITER = model('MC_Writer', 'MC_Writer_quick.cfg', 'MC_Writer_thorough.cfg', need=['refused'])
@@ -81,16 +81,16 @@ PROPS = {
              'non-trivial = a call into the crate on a non-empty input; distinct = distinct inputs',
     ),
     'C04': dict(
-        gens=dict(quick=g('stream', v1good=200, v1struct=60, v1len=40, v2good=150, v2len=40, mixed=80, bigtrail=6),
-                  thorough=g('stream', v1good=5000, v1struct=2000, v1len=600, v2good=4000, v2len=2000, mixed=2500, bigtrail=60)),
+        gens=dict(quick=g('stream', v1good=200, v1struct=60, v1len=40, v1max=20, v2good=150, v2len=40, mixed=80, bigtrail=6),
+                  thorough=g('stream', v1good=5000, v1struct=2000, v1len=600, v1max=400, v2good=4000, v2len=2000, mixed=2500, bigtrail=60)),
         models=[MC_V1, MC_V2, MC_MIXED],
         rule='stream sessions whose header is followed by trailers (application bytes, another header, CR/LF/NUL, a '
              'digit, a TLV); non-trivial = an event after the first accept in the session, or the re-parse of the '
              'reported header alone; distinct = distinct inputs',
     ),
     'C05': dict(
-        gens=dict(quick=g('stream', v1good=250, v1len=40, v2good=200, v2len=40, mixed=80) + g('tlv', tlvtrunc=80, tlvrand=40),
-                  thorough=g('stream', v1good=6000, v1len=600, v2good=5000, v2len=2000, mixed=2500) + g('tlv', tlvtrunc=3000, tlvrand=2000)),
+        gens=dict(quick=g('stream', v1good=250, v1len=40, v1max=30, v2good=200, v2len=40, mixed=80) + g('tlv', tlvtrunc=80, tlvrand=40),
+                  thorough=g('stream', v1good=6000, v1len=600, v1max=600, v2good=5000, v2len=2000, mixed=2500) + g('tlv', tlvtrunc=3000, tlvrand=2000)),
         models=[MC_V1, MC_V2, MC_MIXED],
         rule='stream sessions delivered mostly one byte per read, so every proper prefix is a state; non-trivial = the '
              'first accept of a session that visited at least one proper prefix of that header; distinct = distinct headers+splits',
